@@ -1,7 +1,8 @@
 (* Entry point evaluated by the harness-written cases files for C03. *)
-From Coq Require Import NArith List.
+From Coq Require Import NArith List Bool.
 From Verif Require Import Base.Word Base.Check Model.XdpDhcp Model.XdpDhcpSpec.
 Import ListNotations.
+Local Open Scope N_scope.
 
 (* frames are written with their zero runs compressed (parsing dominates the evaluation time) *)
 Inductive chunk := B (l : bytes) | Z (n : N).
@@ -13,6 +14,42 @@ Fixpoint unz (c : list chunk) : bytes :=
   end.
 
 Definition case := list (op * out).
-Definition mk (c : case) : state * sstate * list (op * out) := (init, sinit, c).
-Definition run_cases (cs : list case) : list (list N) :=
-  check_all step accept out_eqb 1%N (map mk cs).
+
+(* One row PER REJECTED PROBE (the monitor is stateless: every probe is judged on its own, so a
+   rejection explained by a known finding never hides a later one of the same case):
+     [mismatch; step; impl_clause+1; model_step; model_clause+1; markers raised by the Model AT that step]
+   model_step = step when the monitor rejects the Model's own output there too, else 0.
+   A case without rejection yields one row [mismatch; 0; 0; 0; 0; all markers] (dropped when all is 0). *)
+Definition rej (o : op) (r : out) : N :=
+  match accept sinit o r with inl _ => 0 | inr c => c + 1 end.
+
+Fixpoint probe_rows (i mm : N) (m : list (op * out * list N)) (tr : list (op * out)) : list (list N) :=
+  match m, tr with
+  | (o, r, mk) :: m', (_, r') :: tr' =>
+      let ic := rej o r' in
+      let mc := rej o r in
+      let rest := probe_rows (i + 1) mm m' tr' in
+      if ic =? 0 then
+        (if mc =? 0 then rest else [mm; 0; 0; i; mc] :: rest)   (* only the Model is rejected: a tie-1 mismatch at i as well *)
+      else ([mm; i; ic; (if mc =? 0 then 0 else i); mc] ++ dedup mk) :: rest
+  | _, _ => []
+  end.
+
+Definition case_rows (tr : case) : list (list N) :=
+  let m := model_trace step init (map fst tr) in
+  let mm := first_mismatch out_eqb 1 m tr in
+  match probe_rows 1 mm m tr with
+  | [] => let mk := dedup (markers_upto 1 0 m) in
+          match mm, mk with
+          | 0, [] => []
+          | _, _ => [[mm; 0; 0; 0; 0] ++ mk]
+          end
+  | rows => rows
+  end.
+
+Fixpoint run_from (i : N) (cs : list case) : list (list N) :=
+  match cs with
+  | [] => []
+  | c :: tl => map (cons i) (case_rows c) ++ run_from (i + 1) tl
+  end.
+Definition run_cases (cs : list case) : list (list N) := run_from 1 cs.
